@@ -78,12 +78,21 @@ def general_event(c: dict) -> dict:
     rng = np.random.RandomState(c["seed"])
     shape = tuple(c["shape"])
     Xd = rng.rand(*shape) + (0 if c["seed"] % 2 else 2.0 * (rng.rand(*shape) < 0.3))
+    # element type of the data is a presentation: integer-valued data of magnitude 2e4 stored as int32 (squares fit,
+    # their sums do not) and small data stored as float32
+    stored = Xd
+    if c.get("dtype") == "int32":
+        Xd = np.round(Xd * 2e4)
+        stored = Xd.astype(np.int32)
+    elif c.get("dtype") == "float32":
+        stored = Xd.astype(np.float32)
+        Xd = stored.astype(np.float64)
     a = {"shape": list(shape), "auto": not any(c["ranks"]), "ranks": c["ranks"], "seq": c["seq"], "order": c["order"]}
     try:
         with quiet(), warnings.catch_warnings():
             warnings.simplefilter("ignore")
             kw = {"ranks": np.array(c["ranks"], dtype=int)} if any(c["ranks"]) else {}
-            T = ttb.hosvd(ttb.tensor(Xd), c["tol"], verbosity=c["verbosity"], dimorder=np.array(c["order"], dtype=int),
+            T = ttb.hosvd(ttb.tensor(stored), c["tol"], verbosity=c["verbosity"], dimorder=np.array(c["order"], dtype=int),
                           sequential=bool(c["seq"]), **kw)
         rel = np.linalg.norm(Xd - T.full().data) / np.linalg.norm(Xd)
         ranks = [int(u.shape[1]) for u in T.factor_matrices]
@@ -109,19 +118,22 @@ def tucker_event(c: dict) -> dict:
     X = ttb.tensor(Xd)
     a = {"shape": list(shape), "ranks": c["ranks"], "maxiters": c["maxiters"], "order": c["order"], "init": c["init"]}
     try:
+        shared = None
+        if c["init"] == "given":
+            r2 = np.random.RandomState(c["seed"] + 3)
+            shared = [np.linalg.qr(r2.rand(s, r))[0] for s, r in zip(shape, c["ranks"])]      # ONE list for every run
+        snap_start = c05.snapshot(shared) if shared is not None else None
+
         def run(maxiters, stoptol, printitn):
             np.random.seed(c["seed"])
-            if c["init"] == "given":
-                r2 = np.random.RandomState(c["seed"] + 3)
-                init = [np.linalg.qr(r2.rand(s, r))[0] for s, r in zip(shape, c["ranks"])]
-            else:
-                init = c["init"]
+            init = shared if shared is not None else c["init"]
             with quiet(), warnings.catch_warnings():
                 warnings.simplefilter("ignore")
                 return ttb.tucker_als(X, np.array(c["ranks"], dtype=int), stoptol=stoptol, maxiters=maxiters,
                                       dimorder=np.array(c["order"], dtype=int), init=init, printitn=printitn)
         snap = c05.snapshot(X)
         T, Uinit, out = run(c["maxiters"], c["stoptol"], c["printitn"])
+        snap_T = c05.snapshot(T)
         fit_re = 1 - np.linalg.norm(Xd - T.full().data) / np.linalg.norm(Xd)
         fits = []
         for k in range(1, c["maxiters"] + 1):
@@ -130,7 +142,10 @@ def tucker_event(c: dict) -> dict:
         return {"op": "tucker_als", "args": a, "ret": {"st": "ok", "orthonormal": orthonormal(T.factor_matrices),
                 "ranks": [int(u.shape[1]) for u in T.factor_matrices], "core_relation_dev": e9(core_dev(Xd, T)),
                 "fit_dev": e9(out["fit"] - fit_re), "iters_reported": int(out["iters"]), "trunc_fits": fits,
-                "data_untouched": c05.snapshot(X) == snap}}
+                "data_untouched": c05.snapshot(X) == snap,
+                # the truncated runs above started from the same list object: neither it nor the first result may differ now
+                "start_untouched": bool(shared is None or c05.snapshot(shared) == snap_start),
+                "earlier_result_untouched": bool(c05.snapshot(T) == snap_T)}}
     except Exception as e:
         return {"op": "tucker_als", "args": a, "ret": {"st": "raised", "msg": f"{type(e).__name__}: {e}"[:150]}}
 
@@ -191,6 +206,7 @@ def main(tier: str) -> int:
             for seq in (True, False):
                 for tol in (0.5, 0.1, 1e-2, 1e-3):
                     cases.append({"cls": "general", "shape": shape, "order": order, "seq": seq, "tol": tol,
+                                  "dtype": ["float", "int32", "float", "float32"][(i * 3 + i // 5) % 4],
                                   "ranks": [0] * len(shape), "verbosity": [0, 1, 10][(i * 7 + i // 3) % 3], "seed": sd + (i * 5 + i // 4) % 5})
                     i += 1
                 cases.append({"cls": "general", "shape": shape, "order": order, "seq": seq, "tol": 0.1,
